@@ -1832,7 +1832,9 @@ class OperatorRightScalarMult(Operator):
         >>> derivative([1, 1, 1])
         rn(3).element([ 3.,  3.,  3.])
         """
-        return self.scalar * self.operator.derivative(self.scalar * x)
+        # Chain rule ``d -> op'(s * x)(s * d)``. `Operator.__mul__` rewrites
+        # this to ``s * op'(s * x)`` whenever `s` is a scalar of the range.
+        return self.operator.derivative(self.scalar * x) * self.scalar
 
     @property
     def adjoint(self):
